@@ -404,6 +404,14 @@ def _finish(prop, prop_id, tier, verif_seed, reports, errors, t0, nworkers,
         lines.append(f'VIOLATION property={prop_id} replay={path}')
         lines.append(f"  {sig}: {vv['violation']['msg']} ({note})")
         exit_code = 1
+    nh = sum(c for k, c in aborted.items()
+             if str(k).startswith('harness'))
+    if exit_code == 0 and agg['cases'] and nh * 2 > agg['cases']:
+        # most runs could not be exercised: not a verdict
+        errors = list(errors) + [
+            f'{nh} of {agg["cases"]} cases ended with a harness problem: ' +
+            ', '.join(sorted(str(k) for k in aborted
+                             if str(k).startswith('harness')))[:300]]
     if errors:
         for e in errors[:5]:
             lines.append('HARNESS-ERROR ' + e.replace('\n', '\n    '))
